@@ -31,6 +31,7 @@ class SimEventLoop(base_events.BaseEventLoop):
         self.virtual_elapsed = 0.0
         self._selector = _Selector(self)
         self.executor_calls = 0
+        self.baton = None
 
     def time(self):
         return self._now
@@ -41,9 +42,21 @@ class SimEventLoop(base_events.BaseEventLoop):
     def _write_to_self(self):
         pass
 
+    def _run_once(self):
+        b = self.baton
+        if b is not None:
+            if self._ready and b.parked():
+                b.main_tick(force=False)
+            while not self._ready and b.parked():
+                b.main_tick(force=True)
+        super()._run_once()
+
     def run_in_executor(self, executor, func, *args):
         fut = self.create_future()
         self.executor_calls += 1
+        if self.baton is not None:
+            self.baton.submit(fut, func, args)
+            return fut
 
         def run():
             if fut.cancelled():
@@ -68,3 +81,129 @@ def new_loop():
     loop = SimEventLoop()
     asyncio.set_event_loop(loop)
     return loop
+
+
+class BatonExecutor:
+    """Worker threads for run_in_executor that only run while holding the
+    baton.  Yield points: every SimFS event inside a worker; every loop
+    iteration of the main thread.  Decisions come from a seeded PRNG and are
+    recorded (`trace`), or replayed from a recorded list."""
+
+    def __init__(self, rng=None, p_switch=0.3, replay=None, burst_at=None):
+        import threading
+
+        self.threading = threading
+        self.rng = rng
+        self.p = p_switch
+        self.replay = list(replay) if replay is not None else None
+        # burst style (depth-1 pre-emption): the loop thread hands over at
+        # its burst_at-th fs event and the worker then runs to completion
+        self.burst_at = burst_at
+        self.main_events = 0
+        self.trace = []
+        self.workers = []
+        self.main_sem = threading.Semaphore(0)
+        self.current = "main"
+        self.by_ident = {}
+        self.main_ident = threading.get_ident()
+        self.switches = 0
+        self.labels = []
+
+    def parked(self):
+        return [w for w in self.workers if not w["done"]]
+
+    def decide(self, n_choices, label):
+        """0 = stay / do not switch; 1.. = switch to that candidate."""
+        if self.replay is not None:
+            d = self.replay.pop(0) if self.replay else 0
+            d = d if d <= n_choices else 0
+        elif self.burst_at is not None:
+            if label.startswith("loop:"):
+                self.main_events += 1
+                d = 1 if self.main_events == self.burst_at else 0
+            else:
+                d = 0
+        else:
+            d = self.rng.randint(1, n_choices) if self.rng.random() < self.p else 0
+        self.trace.append(d)
+        if d:
+            self.switches += 1
+            if len(self.labels) < 12:
+                self.labels.append(label)
+        return d
+
+    def submit(self, fut, func, args):
+        w = {"sem": self.threading.Semaphore(0), "done": False, "fut": fut}
+
+        def body():
+            w["sem"].acquire()
+            try:
+                r = func(*args)
+                ok = True
+            except BaseException as e:  # noqa: BLE001 - delivered to the awaiter
+                r = e
+                ok = False
+            w["done"] = True
+            if not fut.cancelled():
+                if ok:
+                    fut.set_result(r)
+                else:
+                    fut.set_exception(r)
+            self.current = "main"
+            self.main_sem.release()
+
+        t = self.threading.Thread(target=body, daemon=True)
+        w["thread"] = t
+        self.workers.append(w)
+        t.start()
+        self.by_ident[t.ident] = w
+
+    def main_tick(self, force):
+        cands = self.parked()
+        if not cands:
+            return
+        if force:
+            d = self.decide(len(cands), "loop-idle") or 1
+            if self.trace and self.trace[-1] == 0:
+                self.trace[-1] = d
+        else:
+            d = self.decide(len(cands), "loop-iteration")
+            if not d:
+                return
+        w = cands[d - 1]
+        self.current = w
+        w["sem"].release()
+        if not self.main_sem.acquire(timeout=60):
+            raise Deadlock("worker never gave the baton back")
+
+    def fs_yield(self, kind, paths, mut):
+        w = self.by_ident.get(self.threading.get_ident())
+        if w is None:
+            # the event-loop thread itself: real worker threads run in
+            # parallel with it, so a parked worker may proceed here
+            if self.current == "main" and self.threading.get_ident() == self.main_ident:
+                cands = self.parked()
+                if cands:
+                    d = self.decide(len(cands), "loop:" + kind)
+                    if d:
+                        ww = cands[d - 1]
+                        self.current = ww
+                        ww["sem"].release()
+                        if not self.main_sem.acquire(timeout=60):
+                            raise Deadlock("worker never gave the baton back")
+            return
+        if self.current is not w:
+            return
+        d = self.decide(1, "worker:" + kind)
+        if d:
+            self.current = "main"
+            self.main_sem.release()
+            if not w["sem"].acquire(timeout=60):
+                raise Deadlock("worker never resumed")
+
+    def drain(self):
+        """Let every parked worker finish (end of run)."""
+        for w in self.parked():
+            self.current = w
+            w["sem"].release()
+            self.main_sem.acquire(timeout=60)
